@@ -463,3 +463,315 @@ def r03_8(ctx):
         ctx.require(written(p) == [want], "send_reset", f"send_reset writes {[g.hex() if g else g for g in written(p)]}, must write {want.hex()}",
                     func=sr, trace=p.trace(20))
     ctx.sample({"send_reset": (b"\x1a" + spec_stuff(spec_with_crc(b"\xC0")) + b"\x7e").hex()})
+
+
+# =============================================================================== C02
+RECV = f"{ASH}:AshProtocol.data_received"
+
+
+def _dead_else_raises(ctx):
+    """T-EXH: the `else: raise` of the reserved-byte dispatch in data_received and of the isinstance chain in
+    frame_received are dead when the chains are exhaustive; returns the dead Raise nodes (or [] if not provable)."""
+    repo = ctx.repo
+    dead = []
+    # frame_received: isinstance chain over exactly parse_frame's dispatch classes
+    fr = repo.func(f"{ASH}:AshProtocol.frame_received")
+    classes = set(dispatch_classes(ctx))
+    for n in ast.walk(fr.node):
+        if isinstance(n, ast.If):
+            chain, cur, tested = [], n, set()
+            while isinstance(cur, ast.If):
+                t = cur.test
+                if (isinstance(t, ast.Call) and text(t.func) == "isinstance" and len(t.args) == 2
+                        and text(t.args[0]) == "frame" and isinstance(t.args[1], ast.Name)):
+                    tested.add(t.args[1].id)
+                else:
+                    tested = None
+                    break
+                if len(cur.orelse) == 1 and isinstance(cur.orelse[0], ast.If):
+                    cur = cur.orelse[0]
+                else:
+                    tail = cur.orelse
+                    break
+            if tested is not None and tested >= classes:
+                dead += [s for s in tail if isinstance(s, ast.Raise)]
+            break
+    # data_received: == chain over RESERVED_WITHOUT_ESCAPE on the byte selected by membership in that set
+    dr = repo.func(RECV)
+    rwe = {int(x) for x in repo.get(ASH, "RESERVED_WITHOUT_ESCAPE")}
+    members = repo.cls(ASH, "Reserved").members()
+    src_ok = any(isinstance(n, ast.Compare) and isinstance(n.ops[0], ast.In) and text(n.comparators[0]) == "RESERVED_WITHOUT_ESCAPE"
+                 for n in ast.walk(dr.node))
+    for n in ast.walk(dr.node):
+        if isinstance(n, ast.If) and isinstance(n.test, ast.Compare) and text(n.test.left) == "reserved_byte":
+            cur, tested = n, set()
+            while isinstance(cur, ast.If):
+                t = cur.test
+                if (isinstance(t, ast.Compare) and len(t.ops) == 1 and isinstance(t.ops[0], ast.Eq) and text(t.left) == "reserved_byte"
+                        and text(t.comparators[0]).startswith("Reserved.") and text(t.comparators[0])[9:] in members):
+                    tested.add(members[text(t.comparators[0])[9:]].value)
+                else:
+                    tested = None
+                    break
+                if len(cur.orelse) == 1 and isinstance(cur.orelse[0], ast.If):
+                    cur = cur.orelse[0]
+                else:
+                    tail = cur.orelse
+                    break
+            if tested is not None and src_ok and tested >= rwe:
+                dead += [s for s in tail if isinstance(s, ast.Raise)]
+            break
+    return dead
+
+
+@rule("R02.1", ["C02"], "T-ESC", floor=3)
+def r02_1(ctx):
+    """Nothing escapes AshProtocol.data_received: (a) the parsing calls (_unstuff_bytes, parse_frame) lie in a try
+    whose handler catches Exception, does not re-raise, and whose own body cannot raise; (b) the explicit-raise
+    escape set of data_received over the resolved call graph (through frame_received, its handlers, the gateway and
+    the EZSP layer), with exhaustive-dispatch `else: raise` branches proved dead, is empty."""
+    from ..esc import Escapes, enclosing_try, handler_contains_all
+
+    repo = ctx.repo
+    f = repo.func(RECV)
+    ctx.fn(f)
+    # (a)
+    sites = [n for n in ast.walk(f.node) if isinstance(n, ast.Call) and text(n.func) in ("self._unstuff_bytes", "parse_frame")]
+    ctx.anchor(len(sites) >= 2, "data_received calls _unstuff_bytes and parse_frame")
+    esc = Escapes(repo, dead=_dead_else_raises(ctx))
+    for s in sites:
+        ctx.call_sites += 1
+        encl = [(t, part) for t, part in enclosing_try(f.node, s) if part == "body"]
+        ok = any(handler_contains_all(t) for t, _ in encl)
+        ctx.require(ok, f"parse-site:{text(s.func)}", f"{text(s.func)}(...) at line {s.lineno} is not inside a try whose handler "
+                    "catches Exception without re-raising: arbitrary bytes can raise out of the receive callback", func=f, node=s)
+        for t, _ in encl:
+            for h in t.handlers:
+                hb = esc._block(h.body, f, (f.qual,))
+                for name, chain in sorted(hb):
+                    ctx.violation(f"handler-escape:{name}", f"the parse-failure handler itself can raise {name} via {' > '.join(chain)}",
+                                  func=f, node=h)
+    # (b)
+    out = esc.of(f)
+    ctx.ok(1, "escape-set-computed")
+    seen = set()
+    for name, chain in sorted(out):
+        key = f"escape:{name}:{'>'.join(c.split('.')[-1] for c in chain)}"
+        if key in seen:
+            continue
+        seen.add(key)
+        ctx.violation(key, f"{name} can escape the receive callback via {' > '.join(chain)}", func=f, construct=key)
+    ctx.sample({"escape_set": sorted({(n, ">".join(c)) for n, c in out}), "functions_followed": sorted(esc.memo)})
+    for q in esc.memo:
+        ctx.fn(q)
+
+
+def _scan_models(ctx):
+    R = ctx.repo.cls(ASH, "Reserved").members()
+    rwe = [m for m in R.values() if m.value in {int(x) for x in ctx.repo.get(ASH, "RESERVED_WITHOUT_ESCAPE")}]
+
+    def part(px, t, a, k, fr):
+        found = OK((Sym("P.before"), b"\x7e", Sym("P.after")))
+        missing = OK((Sym("B"), b"", b""))
+        known = px.memo.get("(b'~' in B)")
+        if known is True:
+            return Outcomes(found)
+        if known is False:
+            return Outcomes(missing)
+        return Outcomes(found, missing)
+
+    return [("next", Outcomes(*[OK((Sym("i"), m)) for m in rwe], RAISE("StopIteration"))),
+            ("*.partition", part),
+            ("*.index", lambda px, t, a, k, fr: Outcomes(OK(Sym("flagpos")), RAISE("ValueError"))),
+            ("*.find", lambda px, t, a, k, fr: Outcomes(OK(Sym("flagpos")), OK(-1))),
+            ("self._unstuff_bytes", Outcomes(OK(Sym("unstuffed")), RAISE("ParsingError"))),
+            ("parse_frame", Outcomes(OK(Sym("frame")), RAISE("ParsingError"), RAISE("IndexError"), RAISE("AssertionError"))),
+            ("self._write_frame", Outcomes(OK(None), RAISE("NcpFailure")))], rwe
+
+
+@rule("R02.2", ["C02"], "T-FUN", floor=20)
+def r02_2(ctx):
+    """One scanner iteration, per first reserved byte, over an abstract buffer B = A ++ r ++ rest (i = len(A)):
+    FLAG -> frame A is unstuffed then parsed then delivered, rest kept, empty A ignored; any unstuff/parse failure
+    -> exactly one CANCEL-prefixed NAK carrying the expected number, nothing delivered, nothing raised (even when
+    the write fails); CANCEL -> rest kept, A dropped, no frame; SUBSTITUTE -> same and discard-until-flag set;
+    XON/XOFF -> only that byte removed; no reserved byte -> buffer untouched. In discarding mode: no FLAG ->
+    buffer cleared, mode kept, nothing scanned; FLAG -> mode cleared and only the part after the first FLAG kept.
+    Upward delivery happens only with the frame returned by parse_frame on the unstuffed bytes."""
+    repo = ctx.repo
+    f = repo.func(RECV)
+    ctx.fn(f)
+    cls = ash_cls(ctx)
+    models, rwe = _scan_models(ctx)
+    MAX = const(ctx, ASH, "MAX_BUFFER_SIZE", int)
+    names = {m.value: n for n, m in repo.cls(ASH, "Reserved").members().items()}
+    for disc in (False, True):
+        px = PX(repo, models=models, inline=lambda fr, aw: False, while_bound=1,
+                facts={f"({MAX} < len(B))": False, "(len(B) < %d)" % (MAX + 1): True})
+
+        def setup():
+            return self_obj(cls, {"_buffer": Sym("B"), "_discarding_until_next_flag": disc, "_rx_seq": Sym("rx")}), {"data": Sym("data")}
+
+        paths = px.explore(f, setup)
+        paths = paths + px.truncated_paths  # a path cut at the second loop test has completed its first iteration
+        ctx.paths += len(paths)
+        ctx.anchor(len(paths) >= 8, f"data_received explored only {len(paths)} one-iteration paths")
+        seen_bytes = set()
+        for p in paths:
+            st = p.store["self"]
+            buf, flag = st.get("_buffer"), st.get("_discarding_until_next_flag")
+            nx = [e for e in p.events if e.kind == "call" and e.what == "next"]
+            calls = [e for e in p.events if e.kind == "call" and not e.what.endswith(".extend")]
+            unst = [e for e in calls if e.what == "self._unstuff_bytes"]
+            prs = [e for e in calls if e.what == "parse_frame"]
+            dlv = [e for e in calls if e.what == "self.frame_received"]
+            wr = [e for e in calls if e.what == "self._write_frame"]
+            pops = [e for e in calls if e.what.endswith(".pop")]
+            clears = [e for e in calls if e.what.endswith(".clear")]
+            assumed = dict(p.assumes)
+            bad = None
+            cur = "B"
+            scen = f"discarding={disc}"
+            if p.terminal == "raise":
+                bad = f"raises {p.value!r} out of the receive callback"
+            elif assumed.get("B") is False:
+                if calls or buf != Sym("B") or flag != disc:
+                    bad = "empty buffer is not a no-op"
+                scen += ",empty"
+            else:
+                if disc:
+                    found = assumed.get("(b'~' in B)")
+                    parts = [e for e in calls if e.what.endswith(".partition")]
+                    if parts and isinstance(parts[0].extra, tuple) and len(parts[0].extra) == 3:
+                        found = bool(parts[0].extra[1])
+                    if found is None:
+                        raise AnalysisError("discard branch does not test for a FLAG in the buffer in a recognised form")
+                    if not found:
+                        scen += ",no-flag"
+                        cleared = bool(clears and clears[0].callee == "B.clear") or (isinstance(buf, (bytes, bytearray)) and len(buf) == 0)
+                        if nx or unst or dlv or wr:
+                            bad = "discarding without a FLAG still scans/parses"
+                        elif not cleared:
+                            bad = f"discarding without a FLAG leaves the buffer as {buf!r} (must be emptied)"
+                        elif flag is not True:
+                            bad = "discard-until-flag mode is cleared although no FLAG has arrived"
+                        if bad:
+                            ctx.violation(f"scan:{scen}", f"{scen}: {bad}", func=f, trace=p.trace(30))
+                        else:
+                            ctx.ok(1, scen)
+                        continue
+                    cur = "P.after"
+                    scen += ",flag-found"
+                if not nx:
+                    raise AnalysisError("scanner does not select the first reserved byte through next(...) in a recognised form")
+                o = nx[0].extra
+                if isinstance(o, str) and o.startswith("raises"):
+                    scen += ",no-reserved"
+                    if unst or dlv or wr or pops or buf != Sym(cur) or (flag is not False):
+                        bad = f"no reserved byte: buffer {buf!r}, flag {flag!r}, calls {[e.what for e in calls[1:]]}"
+                else:
+                    r = names[o[1].value]
+                    seen_bytes.add(o[1].value)
+                    scen += f",{r}"
+                    rest = Sym(f"{cur}[(i + 1):None]")
+                    if r == "FLAG":
+                        empty = assumed.get(f"{cur}[None:i]") is False
+                        if buf != rest:
+                            bad = _edit_verdict(buf, cur, rest)
+                        elif flag is not False:
+                            bad = f"discard flag is {flag!r} after a FLAG"
+                        elif empty:
+                            scen += ",empty-frame"
+                            if unst or prs or dlv or wr:
+                                bad = "empty frame (consecutive FLAGs) is not ignored"
+                        elif len(unst) != 1 or unst[0].args[:1] != (Sym(f"{cur}[None:i]"),):
+                            bad = f"frame bytes handed to unstuffing are {[e.args for e in unst]!r}, must be the bytes before the FLAG"
+                        else:
+                            failed = str(unst[0].extra).startswith("raises") or (prs and str(prs[0].extra).startswith("raises"))
+                            scen += ",parse-fails" if failed else ",parse-ok"
+                            if not failed:
+                                if len(prs) != 1 or prs[0].args[:1] != (Sym("unstuffed"),):
+                                    bad = f"parse_frame is given {[e.args for e in prs]!r}, not the unstuffed bytes"
+                                elif len(dlv) != 1 or dlv[0].args[:1] != (Sym("frame"),):
+                                    bad = f"delivery is {[e.brief() for e in dlv]}, must be exactly frame_received(parsed frame)"
+                                elif wr:
+                                    bad = "a NAK is written for a frame that parsed"
+                            else:
+                                if dlv:
+                                    bad = "a frame that failed to unstuff/parse is delivered upward"
+                                elif len(wr) != 1:
+                                    bad = f"{len(wr)} NAKs written for an unparsable frame (must be exactly 1)"
+                                else:
+                                    nk = wr[0].args[0] if wr[0].args else None
+                                    pre = wr[0].kwargs.get("prefix")
+                                    if not (isinstance(nk, Obj) and nk.cls_name == "NakFrame" and nk.fields.get("ack_num") == Sym("rx")):
+                                        bad = f"answer to an unparsable frame is {nk!r}, must be a NAK with the expected number"
+                                    elif not (isinstance(pre, tuple) and [int(x) for x in pre] == [0x1A]):
+                                        bad = f"NAK for an unparsable frame has prefix {pre!r}, must be (CANCEL,)"
+                    elif r in ("CANCEL", "SUBSTITUTE"):
+                        if buf != rest:
+                            bad = _edit_verdict(buf, cur, rest)
+                        elif unst or dlv or wr:
+                            bad = f"{r} triggers parsing/delivery/writes"
+                        elif flag is not (r == "SUBSTITUTE"):
+                            bad = f"discard-until-flag is {flag!r} after {r}"
+                    else:  # XON / XOFF
+                        popped = len(pops) == 1 and pops[0].callee == f"{cur}.pop" and pops[0].args[:1] == (Sym("i"),)
+                        sliced = buf == Sym(f"({cur}[None:i] + {cur}[(i + 1):None])")
+                        if not ((popped and buf == Sym(cur)) or sliced):
+                            bad = f"{r}: buffer edit is {buf!r} / {[e.brief() for e in pops]}, must remove only that byte"
+                        elif unst or dlv or wr or flag is not False:
+                            bad = f"{r} has side effects beyond removing the byte"
+            if bad and bad.startswith("UNRECOGNISED"):
+                raise AnalysisError(f"{scen}: buffer edit {buf!r} is not in a recognised form")
+            if bad:
+                ctx.violation(f"scan:{scen.replace(f'discarding={disc},', '')}", f"{scen}: {bad}", func=f, trace=p.trace(30), construct=scen)
+            else:
+                ctx.ok(1, scen)
+        ctx.require(seen_bytes == {m.value for m in rwe}, f"all-reserved-bytes-explored:{disc}",
+                    f"scanner paths cover reserved bytes {sorted(seen_bytes)} only")
+    ctx.sample({"reserved_bytes": sorted(names[m.value] for m in rwe)})
+
+
+def _edit_verdict(buf, cur, rest):
+    import re
+
+    t = getattr(buf, "tag", repr(buf))
+    if re.fullmatch(re.escape(cur) + r"\[(None|i|\(i [+-] \d+\)):(None|i|\(i [+-] \d+\))\]", t) or t == cur:
+        return f"buffer after the reserved byte is {t}, must be {rest.tag} (everything after that byte)"
+    return "UNRECOGNISED"
+
+
+@rule("R02.4", ["C02"], "T-BND", floor=12)
+def r02_4(ctx):
+    """Memory bound: MAX_BUFFER_SIZE is a positive constant; for flag-free garbage of any length arriving on a
+    buffer of any admissible length the buffer afterwards holds exactly the last min(total, MAX) bytes (evaluated
+    on a grid around the bound), and the buffer is (re)bound only inside data_received and the initialiser."""
+    repo = ctx.repo
+    MAX = const(ctx, ASH, "MAX_BUFFER_SIZE", int)
+    ctx.require(0 < MAX <= 1 << 20, "MAX_BUFFER_SIZE", f"MAX_BUFFER_SIZE = {MAX}")
+    f = repo.func(RECV)
+    cls = ash_cls(ctx)
+    px = PX(repo, inline=lambda fr, aw: False, max_paths=50)
+    for have in (0, 1, MAX - 1, MAX):
+        for n in (0, 1, 2, MAX - 1, MAX, MAX + 1, 3 * MAX + 7):
+            old = bytes([0x41 + (i % 7) for i in range(have)])
+            new = bytes([0x61 + (i % 5) for i in range(n)])
+            paths = px.explore(f, lambda: (self_obj(cls, {"_buffer": bytearray(old), "_discarding_until_next_flag": False}), {"data": new}))
+            ctx.case(1)
+            if len(paths) != 1:
+                raise AnalysisError(f"data_received on concrete garbage: {len(paths)} paths")
+            p = paths[0]
+            buf = p.store["self"].get("_buffer")
+            if not isinstance(buf, (bytes, bytearray)):
+                raise AnalysisError(f"buffer after garbage is not concrete: {buf!r:.80}")
+            want = (old + new)[-MAX:] if len(old + new) > MAX else old + new
+            ctx.require(p.terminal == "return" and bytes(buf) == want, f"bound({have}+{n})",
+                        f"{have} buffered + {n} garbage bytes -> buffer of {len(buf)} bytes (bound {MAX}); must hold the last "
+                        f"{len(want)} bytes", func=f)
+    ws = index(repo).writers("_buffer")
+    for g, n, kind in ws:
+        if g.mod != ASH:
+            continue
+        ctx.require(g.short in ("AshProtocol.__init__", "AshProtocol.data_received"), f"_buffer:writer:{g.short}",
+                    f"receive buffer is modified in {g.short} ({kind})", func=g, node=n)
